@@ -506,3 +506,8 @@ MUTATIONS += [
     dict(id="C05-trees-data-blob-found-as-tree", prop="C05", file=CKF, old="                            match index.get_data(id) {", new="                            match index.get_data(id).or(index.get_id(BlobType::Tree, &BlobId::from(**id))) {"),
     dict(id="C03-prune-early-delete-without-instant", prop="C03", file=PR, old="    let early_delete_index = opts.early_delete_index && opts.instant_delete;", new="    let early_delete_index = opts.early_delete_index;"),
 ]
+
+MUTATIONS += [
+    dict(id="C08-from-binary-offset-of-previous-blob", prop="C08", file=PFILE, old="                Ok(entry) => entry.into_blob(offset),", new="                Ok(entry) => entry.into_blob(offset.saturating_sub(1)),"),
+    dict(id="C08-from-binary-offset-counts-entries", prop="C08", file=PFILE, old="            offset += blob.location.length;\n            blobs.push(blob);", new="            offset += 1;\n            blobs.push(blob);"),
+]
